@@ -1012,19 +1012,31 @@ SPEC = {
             'final group length with z / white space incl. NUL / missing EOD / bytes after EOD, unfiltered streams around the '
             'compression threshold, empty filter lists, 20 kinds of damage, png::decode_row / decode_frame directly (types 0-4, '
             'bpp 0-12, short previous rows, overflowing geometry), Document::compress/decompress, Paeth sweeps (thorough: all 2^24 triples); '
+            'codec correspondence: the extracted Gallina LZW codec vs weezl and the extracted Gallina inflate vs flate2 (round trips through '
+            'Gallina / crate / Python encoders, EarlyChange 0 and 1, tables filled past 4096 codes, clearing limits 259..4096, width-change '
+            'boundaries, all byte values, stored/fixed/dynamic blocks, blocks of 65535 bytes, damaged streams); '
             'non-trivial = non-empty data; distinct = distinct case text',
     'extra_trusted': [
-        'C09: flate2 (inflate/deflate) and weezl (LZW) are oracles: universally quantified functions in the theorems (every law used is a '
-        'hypothesis in the statement); in the runner their answers come from the case (reference data for legal streams, `c09 --oracle` = '
-        'the same crates for damaged streams and for deflate output)',
+        'C09: flate2 (inflate/deflate) and weezl (LZW) are third-party code, universally quantified functions in the theorems.  What is '
+        'assumed of them is written in the statements: in section (7) of Props/C09.v as implements_inflate / implements_lzw (their decoders '
+        'agree with the Gallina decoders of Spec/Inflate.v / Spec/LzwSpec.v on every stream those accept) and valid_zlib_output (flate2\'s '
+        'compressor writes a zlib stream for its input); in the older oracle-parametric theorems as the law used.  In the runner their '
+        'answers come from the case (reference data for legal streams, `c09 --oracle` = the same crates for damaged streams and for deflate output)',
         'C09: the Python reference encoders in props/c09.py (ASCII85, PNG filters, LZW, zlib) define the expected decoding in the direct evaluation',
         'C09: dictionaries have pairwise distinct keys (guaranteed by the Rust type IndexMap; hypothesis dict_wf where a key is removed)',
     ],
-    'partial_note': 'flate2 and weezl internals are third-party and not verified: in the decoding theorems "enc is a zlib/LZW stream for '
-                    'payload" is defined by what the third-party decoder returns; compress_lossless assumes inflate(deflate c) = c and '
-                    'deflate c <> [] for the content c of the stream at hand (hypotheses in the statement).  Both crates are '
-                    'differential-tested against Python zlib and a reference LZW encoder/decoder on every run.  No LzwSpec / Inflate '
-                    'model in Coq (DESIGN stretch goal not attempted).',
+    'partial_note': 'flate2 and weezl internals are third-party and not verified.  The codecs they implement are now executable Gallina: '
+                    'Spec/LzwSpec.v (encoder + decoder, proved lossless for every byte string, both EarlyChange values, every clearing point '
+                    'up to the full table) and Spec/Inflate.v (RFC 1950/1951 decoder incl. fixed/dynamic Huffman blocks, proved to invert '
+                    'the stored-block encoder).  Still ASSUMED, and written as hypotheses: (1) weezl implements this LZW codec '
+                    '(implements_lzw: its decoder returns the Gallina decoder\'s answer on every stream that decoder accepts); (2) flate2\'s '
+                    'decoder implements RFC 1950/1951 (implements_inflate, the same); (3) flate2\'s compressor output is a valid zlib stream '
+                    'for its input (valid_zlib_output, only in compress_lossless).  inflate of fixed/dynamic-Huffman streams has no proved '
+                    'encoder counterpart (only stored blocks).  All three assumptions are differential-tested on every run against the '
+                    'EXTRACTED Gallina codecs: LZW round trips through three encoders (Gallina, weezl, Python) decoded by Gallina and by '
+                    'weezl incl. full tables, width-change boundaries and earlier clearing points; zlib streams from the Gallina stored '
+                    'encoder, flate2 levels 0/1/6/9 and zlib in seven shapes (fixed, Huffman-only, RLE + full flush, 65535-byte blocks) '
+                    'decoded by Gallina and by flate2; damaged streams of both kinds must be accepted/rejected alike.',
     'model_timeout': 1200,
 }
 
@@ -1034,7 +1046,7 @@ def run(ctx):
 
 
 MANIFEST = {
-    'level_text': 'Machine-checked proof (Coq, 35 theorems closed under the global context) about a branch-faithful model of lopdf\'s stream '
+    'level_text': 'Machine-checked proof (Coq, 47 theorems closed under the global context) about a branch-faithful model of lopdf\'s stream '
                   'filter code, against specifications written from ISO 32000-1 and PNG 1.2: the Paeth predictor equals the PNG definition on '
                   'all 2^24 triples (by arithmetic); decode_row inverts the PNG reference encoder for all 5 filter types, every bytes-per-pixel '
                   '> 0 and every row, and on any input yields the unique solution of the PNG reconstruction equations; decode_frame inverts the '
@@ -1045,16 +1057,23 @@ MANIFEST = {
                   'Flate/LZW(EarlyChange absent/0/1)/ASCII85 with legal parameters decodes to the data the reference encoders started from; '
                   'compress then decode returns the original bytes, compress never lengthens the content, and after set_content, '
                   'set_plain_content, compress and decompress the Length entry equals the content length (also per object for '
-                  'Document::compress/decompress).  Constants and code shapes are re-read from the source on every run and the model is tied '
+                  'Document::compress/decompress).  The LZW codec of ISO 32000-1 7.4.4.2 is an executable Gallina encoder/decoder proved '
+                  'lossless for every byte string (EarlyChange 0/1, clear-table at any table size up to 4096, 9-12 bit MSB-first packing); '
+                  'an executable RFC 1950/1951 inflate (stored, fixed, dynamic blocks, Adler-32) is proved to invert the stored-block encoder '
+                  'for every byte string; chains written by these reference encoders are proved to decode to the plain data.  '
+                  'Constants and code shapes are re-read from the source on every run and the model is tied '
                   'to the crate by differential runs against reference encoders.',
-    'level_note': 'flate2 (zlib) and weezl (LZW) are third-party oracles: universally quantified functions; "enc is a zlib/LZW stream for '
-                  'payload" is defined by the decoder oracle, and compress_lossless assumes inflate(deflate c) = c, deflate c <> [] for the '
-                  'stream content c (written in the statement); both are differential-tested each run; no Coq model of LZW/inflate.  '
+    'level_note': 'flate2 (zlib) and weezl (LZW) are third-party code: universally quantified functions.  Their codecs are specified by '
+                  'executable Gallina (Spec/LzwSpec.v proved lossless; Spec/Inflate.v proved against the stored-block encoder); what remains '
+                  'ASSUMED, as hypotheses in the statements: weezl implements this LZW codec and flate2\'s decoder implements RFC 1950/1951 '
+                  '(their decoders return the Gallina decoder\'s answer wherever it accepts), and flate2\'s compressor output is a valid zlib '
+                  'stream for its input (compress_lossless only).  These three are differential-tested against the extracted Gallina codecs '
+                  'on every run.  The older theorems keep the oracle-parametric form (law in the statement).  '
                   'Domain hypotheses: distinct dictionary keys (IndexMap invariant), pixel size in bits and row size in bytes fit a usize.  '
                   'Five defects of the pinned tree are repaired in /repo and proved refuted on the pinned model (Average predictor f51f21b, '
                   'ASCII85 add overflow c049d3a, ASCII85 NUL white space efed7db, DecodeParms array c3c22fe, stale DecodeParms after compress '
                   'fcb7fe1); the model also follows 686bd3f/22cc8e0 (checked predictor geometry).',
-    'technique': 'Coq proof (lia over byte ranges, induction over groups/rows/chains, IndexMap invariants; vm_compute only for 85- and 256-case '
+    'technique': 'Coq proof (lia over byte ranges, induction over groups/rows/chains, IndexMap invariants, LZW dictionary-synchronisation invariant, bit-level pack/unpack; vm_compute only for 85- and 256-case '
                  'character facts and concrete witnesses) + translator-regenerated constants + differential correspondence with reference encoders',
     'design_ref': 'DESIGN.md 6 C09; notes/C09.md',
 }
